@@ -7,6 +7,7 @@
   theorems instantiate it with the BADA-3 model (`burnVec e P pts`).
 -/
 import AeicProofs.Lemmas.C19Drivers
+import AeicProofs.Lemmas.KernelBridge
 
 namespace C19
 open Aeic Aeic.Bada
@@ -419,5 +420,60 @@ example : selectThrust (-5000 : ℝ) 90000 9000 = 9000 := negative_thrust_replac
 
 example : selectThrust (120000 : ℝ) 90000 9000 = 90000 := by
   norm_num [thrust_eq_spec, thrustSpec, smin_real]
+
+
+/-! ## Source tie: the thrust / fuel-flow statements about the definitions regenerated from `BADA/model.py`
+    (`Aeic.Kern.bada_*`, one per concrete engine class; `KernelBridge.badaEnv P` is the attribute environment of a
+    `Bada3AircraftParameters` object). -/
+
+/-- `Bada3FuelBurnModel.calculate_thrust` and `calculate_specific_ground_range`, as the source text says them, are the
+    model's `thrust` and `sgr` for all three engine classes -/
+theorem src_thrust_sgr_is_model (P : Params ℝ) (m : ℝ) (p : Pt ℝ) :
+    (Kern.bada_jet_thrust (KernelBridge.badaEnv P) m p.temp p.alt p.vtas p.rocd p.acc p.cruise = thrust .jet P m p ∧
+     Kern.bada_turboprop_thrust (KernelBridge.badaEnv P) m p.temp p.alt p.vtas p.rocd p.acc p.cruise = thrust .turboprop P m p ∧
+     Kern.bada_piston_thrust (KernelBridge.badaEnv P) m p.temp p.alt p.vtas p.rocd p.acc p.cruise = thrust .piston P m p) ∧
+    (Kern.bada_jet_sgr (KernelBridge.badaEnv P) m p.temp p.alt p.vtas p.rocd p.acc p.cruise p.gs = sgr .jet P m p ∧
+     Kern.bada_turboprop_sgr (KernelBridge.badaEnv P) m p.temp p.alt p.vtas p.rocd p.acc p.cruise p.gs = sgr .turboprop P m p ∧
+     Kern.bada_piston_sgr (KernelBridge.badaEnv P) m p.temp p.alt p.vtas p.rocd p.acc p.cruise p.gs = sgr .piston P m p) :=
+  ⟨KernelBridge.bada_thrust P m p.temp p.alt p.vtas p.rocd p.acc p.gs p.cruise,
+   KernelBridge.bada_sgr P m p.temp p.alt p.vtas p.rocd p.acc p.gs p.cruise⟩
+
+/-- the thrust the source computes never exceeds the phase maximum (jet; plausible coefficients) -/
+theorem src_thrust_never_exceeds_max (P : Params ℝ) (m : ℝ) (p : Pt ℝ)
+    (hmc : 0 ≤ Kern.bada_jet_max_climb (KernelBridge.badaEnv P) p.alt p.vtas p.temp)
+    (hlo : P.cTdesLow ≤ P.cTcr) (hhi : P.cTdesHigh ≤ P.cTcr) (hcr : P.cTcr ≤ 1) :
+    Kern.bada_jet_thrust (KernelBridge.badaEnv P) m p.temp p.alt p.vtas p.rocd p.acc p.cruise ≤
+      (if p.cruise then Kern.bada_jet_max_cruise (KernelBridge.badaEnv P) p.alt p.vtas p.temp
+       else Kern.bada_jet_max_climb (KernelBridge.badaEnv P) p.alt p.vtas p.temp) := by
+  rw [(KernelBridge.bada_max_climb P _ _ _).1] at hmc
+  rw [(src_thrust_sgr_is_model P m p).1.1, (KernelBridge.bada_cruise_descent P _ _ _).1.1, (KernelBridge.bada_max_climb P _ _ _).1]
+  exact thrust_never_exceeds_max .jet P m p hmc hlo hhi hcr
+
+/-- negative total-energy thrust is replaced by the altitude-selected descent thrust, in the source as translated -/
+theorem src_negative_thrust_replaced (P : Params ℝ) (m : ℝ) (p : Pt ℝ) (hneg : teThrust P m p < 0) :
+    Kern.bada_jet_thrust (KernelBridge.badaEnv P) m p.temp p.alt p.vtas p.rocd p.acc p.cruise =
+      (if P.hPDes < p.alt * Gen.METERS_TO_FEET then Kern.bada_jet_descent_high (KernelBridge.badaEnv P) p.alt p.vtas p.temp
+       else Kern.bada_jet_descent_low (KernelBridge.badaEnv P) p.alt p.vtas p.temp) := by
+  rw [(src_thrust_sgr_is_model P m p).1.1, (KernelBridge.bada_cruise_descent P _ _ _).2.1.1,
+    (KernelBridge.bada_cruise_descent P _ _ _).2.2.1]
+  unfold thrust
+  rw [negative_thrust_replaced _ _ _ (Or.inl hneg)]; rfl
+
+/-- the cruise correction is applied on cruise points and only there, for every engine class of the source -/
+theorem src_cruise_factor_only_in_cruise (P : Params ℝ) (thr v : ℝ) :
+    Kern.bada_jet_cruise_fuel_flow (KernelBridge.badaEnv P) thr v
+      = Kern.bada_jet_nominal_fuel_flow (KernelBridge.badaEnv P) thr v * P.cFcr ∧
+    Kern.bada_turboprop_cruise_fuel_flow (KernelBridge.badaEnv P) thr v
+      = Kern.bada_turboprop_nominal_fuel_flow (KernelBridge.badaEnv P) thr v * P.cFcr ∧
+    Kern.bada_piston_cruise_fuel_flow (KernelBridge.badaEnv P) thr v
+      = Kern.bada_piston_nominal_fuel_flow (KernelBridge.badaEnv P) thr v * P.cFcr := by
+  obtain ⟨⟨n1, n2, n3⟩, ⟨c1, c2, c3⟩⟩ := KernelBridge.bada_fuel_flow P thr v
+  rw [n1, n2, n3, c1, c2, c3]
+  refine ⟨?_, ?_, ?_⟩ <;> simp [nominalFuelFlow, cruiseFuelFlow]
+
+/-- piston fuel flow in the source is `C_f1 / 60` kg/s (the unit repair is in the source text) -/
+theorem src_piston_fuel_flow_kg_per_s (P : Params ℝ) (thr v : ℝ) :
+    Kern.bada_piston_nominal_fuel_flow (KernelBridge.badaEnv P) thr v = P.cF1 / 60 := by
+  rw [(KernelBridge.bada_fuel_flow P thr v).1.2.2]; simp [nominalFuelFlow]
 
 end C19
